@@ -74,9 +74,21 @@ AppendFangs(list, more) == IF more = <<>> THEN list ELSE AppendFangs(AddFang(lis
 RECURSIVE ApplyFangs(_, _)
 ApplyFangs(n, f) == [n EXCEPT !.fg = AddFang(@, f), !.ch = [j \in 1..Len(n.ch) |-> ApplyFangs(n.ch[j], f)]]
 \* Node::merge_node + merge_here: mount the root c of another application below prefix m
+\* Node::merge_child (repair of C01-param-sibling-shadowed): a `:param` child of the mounted root that meets a `:param`
+\* child of the mount point is merged into it, recursively (two param siblings: the second is never reached by
+\* search_target).  PMERGE = FALSE is the code before the repair (children appended as they are); a cfg overrides it.
+PMERGE == TRUE
+RECURSIVE MergeChild(_, _), MergeChildren(_, _)
+MergeChild(n, c) ==
+  LET idx == {j \in 1..Len(n.ch) : n.ch[j].pat.k = "P"} IN
+  IF PMERGE /\ c.pat.k = "P" /\ idx # {}
+    THEN LET j == CHOOSE j \in idx : \A q \in idx : j =< q IN
+         [n EXCEPT !.ch[j] = MergeChildren([@ EXCEPT !.fg = AppendFangs(@, c.fg), !.h = IF c.h # <<>> THEN c.h ELSE @], c.ch)]
+    ELSE [n EXCEPT !.ch = Append(@, c)]
+MergeChildren(n, cs) == IF cs = <<>> THEN n ELSE MergeChildren(MergeChild(n, Head(cs)), Tail(cs))
 RECURSIVE MergeAt(_, _, _, _)
 MergeAt(n, m, i, c) ==
-  IF i > Len(m) THEN [n EXCEPT !.fg = AppendFangs(@, c.fg), !.h = IF c.h # <<>> THEN c.h ELSE @, !.ch = @ \o c.ch]
+  IF i > Len(m) THEN MergeChildren([n EXCEPT !.fg = AppendFangs(@, c.fg), !.h = IF c.h # <<>> THEN c.h ELSE @], c.ch)
   ELSE LET idx == {j \in 1..Len(n.ch) : SameSeg(n.ch[j].pat, m[i])} IN
        IF idx # {} THEN LET j == CHOOSE j \in idx : \A q \in idx : j =< q IN [n EXCEPT !.ch[j] = MergeAt(n.ch[j], m, i + 1, c)]
        ELSE [n EXCEPT !.ch = Append(n.ch, MergeAt(Leaf(m[i]), m, i + 1, c))]
